@@ -49,7 +49,8 @@ class C08(Prop):
                    'differential correspondence on pairs/triples through both runners; independent reference-semantics oracle'),
         text=('proof: for ALL same-typed values (any integers, code-point lists, instants, any nesting depth and size) == is reflexive and '
               'symmetric, != is its negation, < is a strict total order on each ordered type with the stated dualities, lists/maps are equal '
-              'exactly when point-wise equal, timestamps compare by instant; the comparison-dunder table and container-reduction structure '
+              'exactly when point-wise equal (== is also transitive at any nesting, <= a total preorder with == as its symmetric part, equal values '
+              'interchangeable in every relation), timestamps compare by instant; the comparison-dunder table and container-reduction structure '
               'the theorems assume are re-read from the source and bridged on every run'),
         note=('Lean kernel; standard axioms; CPython rich-comparison dispatch, str/bytes/int/datetime/timedelta/float comparison and dict '
               'key lookup are modelled (IEEE order via the monotone sign-magnitude key), tied by correspondence only; lark'),
@@ -67,7 +68,12 @@ class C08(Prop):
             "one-position change of strings and bytes incl. non-BMP code points, same or neighbouring instant written with another UTC offset, "
             "element change / append / drop / swap for lists, reorder / drop / add / re-key for maps); all ordered pairs of the 2–3 values × six "
             "relations are evaluated through `x OP y` on the interpreter or the compiled runner with the values bound as variables or spelled as "
-            "literals; plus pairs of differently-typed values (model correspondence only). non-trivial = distinct case in which at least one pair "
+            "literals; plus pairs of differently-typed values (model correspondence only); plus (round 2) values that differ but coincide under a "
+            "coarser notion of sameness — Unicode normalisation forms / case mappings / padding / stripped marks of texts built from precomposed, "
+            "decomposed, compatibility and case-odd characters (also inside lists, map values and map keys), integers modulo 2^32 / 2^63 / in "
+            "absolute value, doubles within a relative tolerance or equal in binary32, equal wall-clock readings in other zones, instants and "
+            "durations equal after truncation — and sequences inside one process on one shared program per operator: the same numerals compared "
+            "as int, uint, double, bool, duration, timestamp one after the other, the same text as string and bytes. non-trivial = distinct case in which at least one pair "
             "is unequal-but-related (differs from its variation), or contains a container, or an extreme/boundary scalar")
 
     # -- generation -----------------------------------------------------------------------------------------------
